@@ -254,6 +254,46 @@ func c17(r *Report, s *Sem) {
 			r.Check(R2, "func sessionContext / stores channel."+fn+" under its own key", p.pos(ctxFn.Pos()), ok, "three distinct unexported keys for id, remote node and local node of the channel parameter")
 		}
 		r.Check(R2, "func sessionContext / stores three values", p.pos(ctxFn.Pos()), len(stored) == 3, fmt.Sprintf("%d values", len(stored)))
+		// … on every path: no return hands back a context that did not pass through all the WithValue calls (a session
+		// served under a context that already identifies another session must still get its own identity)
+		nWV := 0
+		eachCall(ctxFn, func(c ssa.CallInstruction) {
+			if g := staticCallee(c); g != nil && g.Pkg != nil && g.Pkg.Pkg.Path() == "context" && g.Name() == "WithValue" {
+				nWV++
+			}
+		})
+		short := 0
+		for _, rl := range returnLeaves(ctxFn, 0) {
+			// the returned value must be the result of a WithValue call (the last of the chain)
+			call, _ := callOf(rl.v)
+			if call == nil {
+				short++
+				continue
+			}
+			if g := call.Call.StaticCallee(); g == nil || g.Pkg == nil || g.Pkg.Pkg.Path() != "context" || g.Name() != "WithValue" {
+				short++
+				continue
+			}
+			// chain length: follow Args[0] back through WithValue calls
+			depth := 0
+			v := ssa.Value(call)
+			for {
+				cc, _ := callOf(v)
+				if cc == nil {
+					break
+				}
+				g := cc.Call.StaticCallee()
+				if g == nil || g.Pkg == nil || g.Pkg.Pkg.Path() != "context" || g.Name() != "WithValue" {
+					break
+				}
+				depth++
+				v = cc.Call.Args[0]
+			}
+			if depth < nWV {
+				short++
+			}
+		}
+		r.Check(R2, "func sessionContext / every return carries all the values", p.pos(ctxFn.Pos()), short == 0 && nWV > 0, fmt.Sprintf("%d return(s) hand back a context that skipped some of the %d WithValue calls", short, nWV))
 		for _, gt := range []struct {
 			fn  string
 			fld *types.Var
@@ -515,6 +555,8 @@ func canHoldSessionData(t types.Type, s *Sem, d int) bool {
 func c20(r *Report, s *Sem) {
 	p := r.P
 	a := s.anchors()
+	R11 := r.Rule("R11", "the tables dispatched from are the tables registered into: an EnvelopeMux is only ever handled through pointers — never loaded, stored, passed or held in a field by value (a copy taken at construction misses every handler registered afterwards, so an envelope goes to a later-matching handler or to none)", 1)
+	defer checkNeverCopied(r, R11, p.Type("EnvelopeMux"), "an EnvelopeMux handled by value is a copy of the handler tables at that moment")
 	defer r.Import(s, "C04", "R3", "R10", "no envelope is discarded before dispatch: in the receiver every kind is forwarded to its stream by a blocking select without a default arm (a kind dropped when its buffer is full reaches zero handlers)", 5)
 	defer r.Import(s, "C05", "R2", "R9", "a response whose request has given up is an ordinary inbound envelope: the pending entry is removed by a deferred delete on every exit after the insert, so a late response misses the table and reaches the response handlers instead of an abandoned reply slot", 5)
 	R1 := r.Rule("R1", "registration keeps order: each registration method appends the handler at the end of its kind's slice, and the …HandlerFunc variants wrap predicate and function into the adapter unchanged", 8)
